@@ -17,6 +17,7 @@ CHUNK = 60
 RULE = ('Part 1: all sequences of <= 2 placed statements over {def A, def B referencing A, def B, use A, use B, redefinition of A with another type, definition of a builtin name, self-referential definition} x phases '
         '{setup, act (uses), before-assert, assert, cleanup}, and all sequences of 3 over {def A, def B(A), use A, use B} x 4 phases, each in 2..3 file orders of the phase blocks; '
         'Part 2: 17 ways a symbol reaches a context (7 types directly; string built from string / list / path through 1 and 2 definitions; list/path next to a string sibling; list holding a path) x 22 contexts '
+        'plus 9 instructions that reference ONE symbol twice in contexts demanding different types '
         'with a documented demand x phase of use; Part 3: value rendering (concatenation, list splicing, list in string, absolute paths, -rel-cd at reference time); '
         'non-trivial = the program contains a reference; distinct by construction')
 ASSUMPTIONS = [
@@ -184,6 +185,61 @@ CONTEXTS = {
 }
 
 
+# ONE instruction that references M twice, in two contexts demanding different types (every reference is checked against ITS context)
+PS = {'path', 'string'}
+TWO_SLOT = [
+    # phase, line, (accepted, pure) of the first reference, (accepted, pure) of the second
+    ('setup', 'run % probe @[M]@ -existing-file @[M]@', (SLP, False), (PS, True)),
+    ('act', '% probe @[M]@ -existing-file @[M]@', (SLP, False), (PS, True)),
+    ('assert', 'contents @[M]@ : @[M]@', (PS, True), ({'text-matcher'}, False)),
+    ('setup', 'file @[M]@ = @[M]@', (PS, True), ({'string', 'text-source'}, False)),
+    ('assert', 'stdout -transformed-by @[M]@ @[M]@', ({'text-transformer'}, False), ({'text-matcher'}, False)),
+    ('assert', 'exists @[M]@ : @[M]@', (PS, True), ({'file-matcher'}, False)),
+    ('before-assert', 'run % probe "@[M]@" -existing-file @[M]@', (SLP, False), (PS, True)),
+    ('cleanup', 'env V = @[M]@ -transformed-by @[M]@', ({'string', 'text-source'}, False), ({'text-transformer'}, False)),
+    ('setup', 'run % probe @[M]@ @[M]@', (SLP, False), (SLP, False)),
+]
+
+
+def _slot_accepts(row, slot):
+    _, typ, pure = ROWS[row]
+    accepts, needs_pure = slot
+    return typ in accepts and (pure or not needs_pure)
+
+
+def _twice(res, case, w, seam):
+    _, row, ti = case
+    defs, typ, pure = ROWS[row]
+    phase, line, s1, s2 = TWO_SLOT[ti]
+    blocks = {p: [] for p in PHASES}
+    blocks['setup'] += defs
+    if phase == 'act':
+        blocks['act'] = [line]
+    else:
+        blocks[phase].append(line)
+        blocks['act'] = ['% atc']
+    text = '\n'.join(sum([['[%s]' % p] + blocks[p] for p in PHASES], [])) + '\n'
+    o = cli.run_case(text)
+    a1, a2 = _slot_accepts(row, s1), _slot_accepts(row, s2)
+    errs = []
+    if o.exc:
+        errs.append('exception: %s' % o.exc)
+    if a1 and a2:
+        if o.ident in ('SYNTAX_ERROR', 'INTERNAL_ERROR'):
+            errs.append('`%s` with M a %s (%s): both references are of an accepted type: got %s / %s' % (line, typ, row, o.ident, ' / '.join(cli.stderr_lines(o.err)[-3:])[:300]))
+    else:
+        if o.ident != 'VALIDATION_ERROR' or o.rc != 65:
+            errs.append('`%s` with M a %s (%s): the %s reference demands %s%s: expected VALIDATION_ERROR, got %s / %s' % (
+                line, typ, row, 'first' if not a1 else 'second', sorted((s1 if not a1 else s2)[0]), ' (purely)' if (s1 if not a1 else s2)[1] else '', o.ident,
+                ' / '.join(cli.stderr_lines(o.err)[-2:])[:200]))
+        errs += _no_effects(w, seam)
+    res.outcomes[('twice', a1, a2, o.ident)] += 1
+    res.nontrivial += 1
+    if errs:
+        res.violation(case, errs, {'file': text})
+    return res
+
+
 def expected_accept(row, ctx):
     _, typ, pure = ROWS[row]
     _, _, accepts, needs_pure = CONTEXTS[ctx]
@@ -209,6 +265,9 @@ def cases(tier):
                 yield ('type', row, ctx, defphase)
     for i in range(len(VALUE_CASES)):
         yield ('value', i)
+    for row in ROWS:
+        for ti in range(len(TWO_SLOT)):
+            yield ('twice', row, ti)
 
 
 def run(case) -> Result:
@@ -225,6 +284,8 @@ def run(case) -> Result:
         return _prog(res, case, w, seam)
     if k == 'type':
         return _type(res, case, w, seam)
+    if k == 'twice':
+        return _twice(res, case, w, seam)
     return _value(res, case, w, seam)
 
 
